@@ -382,7 +382,17 @@ def rule_zero_width_guard(ctx, rep, rid: str) -> None:
                 rep.ok(rid, key, {"note": "guarded by " + ",".join(sorted(classes))})
     for name in ("_compile_star", "_compile_plus"):
         g = ctx.tree.method("RegexCompiler", name)
-        txt = " ".join(norm(s) for s in g.body())
+        # the emitter itself, and the emitters it hands the body to together with the zero-width verdict (X+ as X{1,})
+        chain, q = [g], [g]
+        while q:
+            h = q.pop()
+            for c in h.own_nodes():
+                if isinstance(c, ast.Call) and isinstance(c.func, ast.Attribute) and norm(c.func.value) == "self" and any(norm(a) == "need_advance_check" for a in c.args):
+                    m2 = ctx.tree.find_method(g.cls, c.func.attr)
+                    if m2 is not None and all(m2 is not x for x in chain):
+                        chain.append(m2)
+                        q.append(m2)
+        txt = " ".join(norm(s) for h in chain for s in h.body())
         if "Op.SET_POS" in txt and "Op.CHECK_ADVANCE" in txt and "need_advance_check" in txt:
             rep.ok(rid, f"{name}:guard-emitted")
         else:
@@ -1289,3 +1299,178 @@ def rule_numeric_catch_all(ctx, rep, rid: str) -> None:
             e, groups = clash
             parts = "; ".join(f"{'/'.join(cs)} -> {a}" for a, cs in sorted(groups.items()))
             rep.bad(rid, key, f"{m.qual} gives `{short(default.value, 20)}` to every class it does not name ({', '.join(bucket)}), but {e.name} tells them apart ({parts}): for one of the groups the number is wrong (a back-reference is not one character wide: it may match nothing or many)", f"{m.module.rel}:{default.lineno}")
+
+
+# ---- handlers of one opcode family agree on case forms; line terminators are the ECMAScript set ----------
+
+
+def _handler_bodies(ctx) -> Dict[str, List[Tuple[Func, ast.If]]]:
+    """opcode -> [(matcher function, the `if opcode == Op.X` branch)]"""
+    out: Dict[str, List[Tuple[Func, ast.If]]] = {}
+    for f, loop in ctx.facts.matcher_loops():
+        for n in ast.walk(loop):
+            if isinstance(n, ast.If) and isinstance(n.test, ast.Compare) and isinstance(n.test.left, ast.Name) and n.test.left.id == "opcode":
+                o = opcode_member(n.test.comparators[0], OPENUM)
+                if o:
+                    out.setdefault(o, []).append((f, n))
+    return out
+
+
+def rule_negated_handlers_fold_case_alike(ctx, rep, rid: str) -> None:
+    """A character class and its negation (RANGE / RANGE_NEG, and any other X / X_NEG pair of the matcher) are the same
+    membership test with the outcome inverted.  Under the i flag the positive handler asks about both case forms of
+    the subject character; a negated handler that asks about one of them lets through characters whose other form is in
+    the class: /[^A]/i matches 'a'."""
+    rep.rule(rid, "for every pair of matcher opcodes X / X_NEG, the negated handler applies the same case mappings to the subject character (lower, upper, casefold) as the positive one", floor=1)
+    hb = _handler_bodies(ctx)
+    n = 0
+
+    def forms(branch: ast.If) -> Set[str]:
+        return {c.func.attr for b in branch.body for c in ast.walk(b) if isinstance(c, ast.Call) and isinstance(c.func, ast.Attribute) and c.func.attr in ("lower", "upper", "casefold", "swapcase")}
+
+    for op, lst in sorted(hb.items()):
+        pos = op[: -len("_NEG")] if op.endswith("_NEG") else None
+        if pos is None or pos not in hb:
+            continue
+        for f, br in lst:
+            mates = [b for g, b in hb[pos] if g is f]
+            if not mates:
+                continue
+            n += 1
+            key = f"{f.qual}:{pos}/{op}:case-forms"
+            a, b = forms(mates[0]), forms(br)
+            if a == b:
+                rep.ok(rid, key, {"forms": sorted(a)})
+            else:
+                rep.bad(rid, key, f"{f.qual}: the handler of {pos} maps the subject character with {sorted(a)} and the handler of {op} with {sorted(b)}: under the i flag the negated class lets a character through when only its {', '.join(sorted(a - b)) or 'other'} form is in the class (/[^A]/i matches 'a')", f"{f.module.rel}:{br.lineno}")
+    if n == 0:
+        raise AnalysisError(f"{rid}: no X / X_NEG pair of matcher opcodes found")
+
+
+def rule_line_terminators(ctx, rep, rid: str) -> None:
+    """LineTerminator is <LF>, <CR>, <LS>, <PS>.  The dot does not match any of them and, under the m flag, ^ holds
+    after any of them (the one that ends the subject included) and $ before any of them.  A matcher that compares with
+    "\\n" alone lets `.` match a carriage return and does not see the lines of a CR- or LS-separated text."""
+    rep.rule(rid, "in the matcher, the handlers of the dot and of the multiline anchors test the subject character for membership in a set that holds all four line terminators (never `== '\\n'` alone), and the multiline ^ does not refuse the end of the subject", floor=3)
+    hb = _handler_bodies(ctx)
+    want = {"\n", "\r", "\u2028", "\u2029"}
+    n = 0
+    for op in ("DOT", "LINE_START_M", "LINE_END_M"):
+        for f, br in hb.get(op, []):
+            n += 1
+            key = f"{f.qual}:{op}:line-terminators"
+            bad = None
+            for c in [x for b in br.body for x in ast.walk(b) if isinstance(x, ast.Compare)]:
+                for o, k in zip(c.ops, c.comparators):
+                    if isinstance(o, (ast.Eq, ast.NotEq)) and isinstance(k, ast.Constant) and k.value == "\n":
+                        bad = f"`{short(c, 50)}` knows only \\n"
+                    if isinstance(o, (ast.In, ast.NotIn)):
+                        vals = None
+                        if isinstance(k, ast.Constant) and isinstance(k.value, str):
+                            vals = set(k.value)
+                        elif isinstance(k, (ast.Tuple, ast.Set, ast.List)):
+                            vals = {e.value for e in k.elts if isinstance(e, ast.Constant)}
+                        elif isinstance(k, ast.Name):
+                            for s_ in f.module.tree.body:
+                                if isinstance(s_, ast.Assign) and norm(s_.targets[0]) == k.id:
+                                    v = s_.value
+                                    if isinstance(v, ast.Call) and v.args:
+                                        v = v.args[0]
+                                    if isinstance(v, ast.Constant) and isinstance(v.value, str):
+                                        vals = set(v.value)
+                                    elif isinstance(v, (ast.Tuple, ast.Set, ast.List)):
+                                        vals = {e.value for e in v.elts if isinstance(e, ast.Constant)}
+                        if vals is not None and not want <= vals and "\n" in vals:
+                            bad = f"`{short(c, 50)}` tests a set without {sorted(repr(x) for x in want - vals)}"
+            if op == "LINE_START_M" and bad is None:
+                for c in [x for b in br.body for x in ast.walk(b) if isinstance(x, ast.Compare)]:
+                    if "len(string)" in norm(c) and any(isinstance(o, (ast.GtE, ast.Gt, ast.Eq)) for o in c.ops) and "sp" in norm(c.left):
+                        bad = f"`{short(c, 40)}` refuses the end of the subject, where a line starts when the subject ends in a line terminator"
+            if bad is None:
+                rep.ok(rid, key)
+            else:
+                rep.bad(rid, key, f"{f.qual}, handler of {op}: {bad} (the dot must not match \\r, \\u2028, \\u2029; /^b/m matches in 'a\\rb'; 'a\\n'.replace(/^/mg, '>') is '>a\\n>')", f"{f.module.rel}:{br.lineno}")
+    if n < 3:
+        raise AnalysisError(f"{rid}: handlers of DOT / LINE_START_M / LINE_END_M not all found ({n})")
+
+
+# ---- the quantifier emitters: where captures are reset and which repetition may be refused -------------------
+
+
+def rule_quantifier_emitters(ctx, rep, rid: str) -> None:
+    """RepeatMatcher (ECMAScript 22.2.2.3.1): every repetition starts with the captures of the atom undefined; declining
+    a repetition leaves the captures as the previous repetitions left them; a repetition that matches nothing is
+    refused only once the minimum has been reached.  In the emitters that means: (a) the capture reset belongs to the
+    branch that matches the body, after the branch point - a reset in front of the split also wipes the captures of
+    the branch that skips; (b) every unrolled copy of the body is preceded by a reset; (c) a body bracketed by
+    SET_POS/CHECK_ADVANCE is one the loop may decline (a split in front of it), never the mandatory first one."""
+    rep.rule(rid, "in the regex compiler's quantifier emitters: no capture reset is emitted in front of the split that guards a body; every unrolled copy of a body in a `for` loop is preceded by a capture reset; a CHECK_ADVANCE follows only a body that a split in front of it makes optional", floor=4)
+    comp = ctx.tree.class_named("RegexCompiler")
+    n = 0
+
+    def kind(st: ast.stmt) -> List[str]:
+        out = []
+        for c in ast.walk(st):
+            if not isinstance(c, ast.Call):
+                continue
+            fn = norm(c.func)
+            if fn == "self._emit_capture_reset":
+                out.append("reset")
+            elif fn == "self._emit" and c.args and norm(c.args[0]).startswith("Op.SPLIT"):
+                out.append("split")
+            elif fn == "self._emit" and c.args and norm(c.args[0]) == "Op.CHECK_ADVANCE":
+                out.append("check")
+            elif fn == "self._compile_node" and c.args and norm(c.args[0]) == "body":
+                out.append("body")
+        return out
+
+    def blocks(stmts: List[ast.stmt]):
+        yield stmts
+        for st in stmts:
+            for field in ("body", "orelse", "finalbody"):
+                sub = getattr(st, field, None)
+                if isinstance(sub, list) and sub and isinstance(sub[0], ast.stmt):
+                    yield from blocks(sub)
+
+    for m in comp.methods.values():
+        if isinstance(m.node, ast.Lambda) or "body" not in m.params():
+            continue
+        for blk in blocks(m.body()):
+            # events of this block in order; a nested if/else that only chooses the KIND of split counts as the split
+            ev: List[Tuple[str, int]] = []
+            for st in blk:
+                if isinstance(st, (ast.For, ast.While)):
+                    continue
+                ks = kind(st)
+                if isinstance(st, ast.If):
+                    ks = ["split"] if ks and set(ks) == {"split"} else []
+                ev.extend((k, st.lineno) for k in ks)
+            names = [k for k, _ in ev]
+            if "body" in names:
+                n += 1
+                i = names.index("body")
+                key = f"{m.qual}:block@{blk[0].lineno}"
+                problems = []
+                if "split" in names[:i]:
+                    j = names.index("split")
+                    if "reset" in names[:j]:
+                        problems.append((ev[names.index('reset')][1], "the capture reset is emitted in front of the split: the branch that skips the body loses what an earlier copy of it captured (/(?:(a)|b){1,2}/ on \"a\" captures nothing)"))
+                if "check" in names[i:] and "split" not in names[:i]:
+                    problems.append((ev[i][1], "the body is bracketed by SET_POS/CHECK_ADVANCE without a split in front of it: the repetition that has to happen is refused when it matches nothing (/(a*)b\\1+/ does not match \"b\")"))
+                if problems:
+                    for line, why in problems:
+                        rep.bad(rid, key, f"{m.qual}: {why}", f"{m.module.rel}:{line}")
+                else:
+                    rep.ok(rid, key)
+        for loop in m.own_nodes():
+            if isinstance(loop, ast.For) and isinstance(loop.iter, ast.Call) and norm(loop.iter.func) == "range":
+                ks = [k for st in loop.body for k in kind(st)]
+                if "body" in ks:
+                    n += 1
+                    key = f"{m.qual}:unrolled@{loop.lineno}"
+                    if "reset" in ks[: ks.index("body")]:
+                        rep.ok(rid, key)
+                    else:
+                        rep.bad(rid, key, f"{m.qual} unrolls the body `{short(loop.iter, 30)}` times without resetting its captures between the copies: /(?:(a)|b){{2}}/ on \"ab\" still reports the \"a\" of the first repetition", f"{m.module.rel}:{loop.lineno}")
+    if n < 4:
+        raise AnalysisError(f"{rid}: fewer than four body emissions found in the quantifier emitters ({n})")
